@@ -126,6 +126,13 @@ func Yield(site string) {
 	<-ch
 }
 
+// Managed reports whether the calling goroutine is under control of the scheduler.
+func Managed() bool {
+	mu.Lock()
+	defer mu.Unlock()
+	return active && byGoid[goid()] != nil
+}
+
 // Pos describes where a managed goroutine is.
 type Pos struct {
 	Name  string
